@@ -101,7 +101,7 @@ CHECKS = {
        "retransmissions included; the receiver's table is dropped with the sender's at notify_closed. THE PAIR (Conn/AliasPair.v): the library's "
        "receive-side table, fed the same packets in order, answers exactly like the ghost table (C13_receiver_implements_ghost, _stream), so "
        "between two library endpoints every requested PUBLISH is delivered with the topic the sending application asked for "
-       "(C13_pair_alias_step; whole receive path for QoS 0: C13_deliver_qos0_with_alias). The implementation is judged by the "
+       "(C13_pair_alias_step; whole receive path: C13_deliver_qos{0,1,2}_with_alias). The implementation is judged by the "
        "monitor mon_c13 (independent receiver-side alias table replayed over the sent packets) and tied to the model by the correspondence.",
   ref="DESIGN.md §3 C13",
   note=CONN_NOTE,
